@@ -501,6 +501,13 @@ func VfC03_DeepModule() {
 	if asOf == 1 {
 		g1.AddrSpace = 3
 	}
+	if vfChoice("comdat", 2) == 1 {
+		// a comdat whose name is the number an unnamed first global receives
+		// (only a *named* global may use the bare `comdat` form)
+		cd := &ir.ComdatDef{Name: "0", Kind: enum.SelectionKindAny}
+		m.ComdatDefs = append(m.ComdatDefs, cd)
+		g1.Comdat = cd
+	}
 	g2 := m.NewGlobalDef(nm(1, a+"2"), g1)
 	decl := m.NewFunc(nm(2, a+"3"), types.NewPointer(types.NewFunc(types.I32)))
 	if asOf == 2 {
@@ -511,6 +518,13 @@ func VfC03_DeepModule() {
 	b := def.NewBlock("")
 	v := b.NewAdd(def.Params[0], constant.NewInt(types.I32, 1))
 	ld := b.NewLoad(types.I32, g1)
+	// a call of the declared function (which may live in address space 2): LLVM
+	// requires the call to name the callee's address space (calibrated with
+	// llvm-as 14: "defined with type 'T addrspace(2)*' but expected 'T*'")
+	cl := b.NewCall(decl)
+	if pt, ok := decl.Type().(*types.PointerType); ok {
+		vfAssert("C03.deepmodule.call-addrspace-is-the-callee's", cl.AddrSpace == pt.AddrSpace)
+	}
 	b.NewRet(b.NewAdd(v, ld))
 	al := m.NewAlias(nm(4, a+"5"), g1)
 	ifn := m.NewIFunc(nm(5, a+"6"), decl)
